@@ -450,9 +450,13 @@ def run_c20(ctx):
     short = [d for d in lits if len(d) <= 45]
     typed_in = short[::(3 if ctx.tier == 'quick' else 1)] + [d for d in miss if len(d) <= 4] + [b' ' + d + b' ' for d in short[::50]]
     for cfg in ctx.cfgs:
-        for batch in chunks(lits + miss, 200000):
+        # (the literal families are run apart from the near-misses: the model's exact as_f64 oracle costs ~2 ms per literal,
+        #  and the engine shards contiguous slices)
+        ctx.violations += judge_nf(ctx, cfg, lits)
+        for batch in chunks(miss, 200000):
             ctx.violations += judge_nf(ctx, cfg, batch)
-        ctx.violations += judge_na(ctx, cfg, lits[::2] + miss[::3])
+        ctx.violations += judge_na(ctx, cfg, lits[::2])
+        ctx.violations += judge_na(ctx, cfg, miss[::3])
         ctx.violations += judge_nd(ctx, cfg, lits)
         for batch in chunks(canon, 100000):
             ctx.violations += judge_docs(ctx, cfg, batch, canonical=True)
